@@ -181,6 +181,13 @@ def check(prop, tier, seed):
                           'ep_opts': [[], ['concurrency_limit'], [], ['rate_limit'], [], ['user_agent', 'buffer_size'], ['concurrency_limit', 'rate_limit']][len(stims) % 7]})   # other Endpoint options (tower layers around the connection)
     if not stims:
         raise ToolError('no scripts exported')
+    # every fifth channel is an https one (tonic wraps the scripted connector's pipe in TLS); on half of those the failed attempts are
+    # dials that succeed and die in the TLS handshake (the peer closes before it completes)
+    for i, st in enumerate(stims):
+        if i % 5 == 2:
+            st['tls'] = True
+            if (i // 5) % 2 == 0:
+                st['fail_kinds'] = ['handshake_eof']
     if tier == 'thorough':
         rnd = random.Random(seed)
         for _ in range(400):
